@@ -263,3 +263,19 @@ package types
 //@     invariant talliedVotingPower == tallyFor(commit, vs, iter)
 //@     invariant 0 <= talliedVotingPower && talliedVotingPower <= sumPow(vs.Validators, iter)
 //@     invariant forall i int :: 0 <= i && i < iter && commit.Signatures[i].BlockIDFlag != BlockIDFlagAbsent ==> sigOK(vs.Validators[i].Address, crypto.keccak(commitSignBytes(chainID, commit, i)), content(commit.Signatures[i].Signature))
+
+// MakeCommit: slot i carries the commit flag exactly for a vote for the majority block id; signature,
+// timestamp and address are copied from that validator's vote; everything else is absent or nil-flagged.
+//@ func (voteSet *VoteSet) MakeCommit() (c *Commit)
+//@   for C02
+//@   requires voteSet != nil && voteSet.maj23 != nil
+//@   requires !(voteSet.maj23.Hash == common.Hash{}) && !(voteSet.maj23.PartsHeader == PartSetHeader{})
+//@   ensures [header] fresh(c) && c.Height == voteSet.height && c.Round == voteSet.round && c.BlockID == *voteSet.maj23 && len(c.Signatures) == len(voteSet.votes)
+//@   ensures [forBlockOnlyMaj] forall i int :: 0 <= i && i < len(voteSet.votes) ==> (c.Signatures[i].BlockIDFlag == BlockIDFlagCommit <==> (voteSet.votes[i] != nil && voteSet.votes[i].BlockID == *voteSet.maj23))
+//@   ensures [absentIffNoUsableVote] forall i int :: 0 <= i && i < len(voteSet.votes) && voteSet.votes[i] == nil ==> c.Signatures[i].BlockIDFlag == BlockIDFlagAbsent
+//@   ensures [sigCopied] forall i int :: 0 <= i && i < len(voteSet.votes) && c.Signatures[i].BlockIDFlag != BlockIDFlagAbsent ==> voteSet.votes[i] != nil && c.Signatures[i].Signature == voteSet.votes[i].Signature && c.Signatures[i].Timestamp == voteSet.votes[i].Timestamp && c.Signatures[i].ValidatorAddress == voteSet.votes[i].ValidatorAddress
+//@   loop 1:
+//@     invariant 0 <= iter && iter <= len(voteSet.votes) && len(commitSigs) == len(voteSet.votes) && fresh(commitSigs)
+//@     invariant forall i int :: 0 <= i && i < iter ==> (commitSigs[i].BlockIDFlag == BlockIDFlagCommit <==> (voteSet.votes[i] != nil && voteSet.votes[i].BlockID == *voteSet.maj23))
+//@     invariant forall i int :: 0 <= i && i < iter && voteSet.votes[i] == nil ==> commitSigs[i].BlockIDFlag == BlockIDFlagAbsent
+//@     invariant forall i int :: 0 <= i && i < iter && commitSigs[i].BlockIDFlag != BlockIDFlagAbsent ==> voteSet.votes[i] != nil && commitSigs[i].Signature == voteSet.votes[i].Signature && commitSigs[i].Timestamp == voteSet.votes[i].Timestamp && commitSigs[i].ValidatorAddress == voteSet.votes[i].ValidatorAddress
